@@ -106,20 +106,42 @@ INVARIANT ProductFaithful
 INVARIANT EmitProduct
 CHECK_DEADLOCK FALSE
 '''
-FAMILY_SIZES = {'column': 24192, 'index': 1008, 'table': 576, 'ref': 10368, 'enum': 108, 'misc': 729}
+SIZE_CFG = '''CONSTANTS
+  SeedLo = 1
+  SeedHi = 1
+  WithProps = FALSE
+  WithComments = FALSE
+  Family = "%s"
+INIT Init
+NEXT Next
+INVARIANT EmitSize
+CHECK_DEADLOCK FALSE
+'''
+_SIZES: Dict[str, int] = {}
+
+
+def family_size(family: str) -> int:
+    """size of a feature product, asked of the specification itself (GenProduct!FamilySize): never a constant kept in step by hand"""
+    if family not in _SIZES:
+        res = tlc.require_ok(tlc.run('MC_GenProduct', cfg_text=SIZE_CFG % family, workers=1, timeout=600), 'MC_GenProduct size')
+        s = [p[1] for p in res.prints if p and p[0] == 'SIZE']
+        if len(s) != 1 or s[0] % 7919 == 0:
+            raise core.Machinery('GenProduct!FamilySize(%s): %r' % (family, s))
+        _SIZES[family] = s[0]
+    return _SIZES[family]
 
 
 def gen_products(family: str, count: int, rep: core.Report):
     """the first `count` elements (all if count >= size) of a per-element feature product (GenProduct.tla), spread over all
     dimensions by a stride; -> [(family:index, doc)]"""
-    hi = min(count, FAMILY_SIZES[family])
+    hi = min(count, family_size(family))
     res = tlc.require_ok(tlc.run_sharded('MC_GenProduct', lambda a, b: PRODUCT_CFG % (a, b, family), 1, hi, timeout=3000), 'MC_GenProduct')
     if res.violated:
         raise core.Machinery('design-level property %s violated in MC_GenProduct(%s)\n%s' % (res.violated, family, res.out[-3000:]))
-    rep.add_tlc('MC_GenProduct %s 1..%d of %d' % (family, hi, FAMILY_SIZES[family]), res)
+    rep.add_tlc('MC_GenProduct %s 1..%d of %d' % (family, hi, family_size(family)), res)
     out = [('%s:%d' % (family, p[1]), json.loads(p[2])) for p in res.prints if p and p[0] == 'DOC']
     out.sort(key=lambda x: x[0])
-    return out, hi >= FAMILY_SIZES[family]
+    return out, hi >= family_size(family)
 
 
 def form_plan(nrandom: int, sweep: bool, base_seed: int) -> List[Tuple[Optional[int], Dict[str, Any]]]:
@@ -247,7 +269,7 @@ def product_models(rep: core.Report, families=('column', 'index', 'table', 'ref'
 def gen_product_models(family: str, lo: int, count: int, rep: core.Report):
     """`count` elements of a per-element feature product, from position `lo` of the stride order (wrapping), with their models
     (GenProductModel.tla) -> [(family:index, {'doc', 'model', 'reforder'})] -- the shape gen_models returns"""
-    size = FAMILY_SIZES[family]
+    size = family_size(family)
     count = min(count, size)
     lo = (lo - 1) % size + 1
     ranges = [(lo, min(size, lo + count - 1))]
